@@ -451,6 +451,31 @@ fn hmac_sha1(key: &[u8], data: &[u8]) -> [u8; 20] {
     output
 }
 
+/// Verify the MESSAGE-INTEGRITY attribute of a raw STUN message under `key`
+/// (RFC 5389 §15.4): HMAC-SHA1 over the message up to the attribute, with the
+/// header length adjusted to end at MESSAGE-INTEGRITY. `false` if absent.
+pub fn verify_message_integrity(bytes: &[u8], key: &[u8]) -> bool {
+    let mut offset = 20;
+    while offset + 4 <= bytes.len() {
+        let typ = u16::from_be_bytes([bytes[offset], bytes[offset + 1]]);
+        let len = u16::from_be_bytes([bytes[offset + 2], bytes[offset + 3]]) as usize;
+        if offset + 4 + len > bytes.len() {
+            return false;
+        }
+        if typ == 0x0008 {
+            let mut covered = bytes[..offset].to_vec();
+            write_length_field(&mut covered, offset - 20 + 24);
+            let Ok(mut mac) = <HmacSha1 as hmac::digest::KeyInit>::new_from_slice(key) else {
+                return false;
+            };
+            mac.update(&covered);
+            return len == 20 && mac.verify_slice(&bytes[offset + 4..offset + 24]).is_ok();
+        }
+        offset += 4 + len + (4 - (len % 4)) % 4;
+    }
+    false
+}
+
 fn crc32(data: &[u8]) -> u32 {
     let mut hasher = Hasher::new();
     hasher.update(data);
